@@ -221,4 +221,182 @@ theorem stale_descriptor_double_frees :
 example : Clean (run {} (history true { ws := none } [(100, some 1), (200, none), (200, some 2), (50, none)])) := by decide
 example : Clean (run {} ([(1, 10), (2, 20), (3, 30)].map (fun p => Ev.alloc p.1 p.2) ++ [Ev.fail 40] ++ [2, 3, 1].map Ev.free)) := by decide
 
+/-! ### objects the caller still owns must survive a failed call -/
+
+theorem orun_append (s : OSt) (a b : List OEv) : orun s (a ++ b) = orun (orun s a) b := by
+  simp [orun, List.foldl_append]
+
+/-- the caller's declarations do not change what the allocator ledger sees: every theorem above applies to the projected log -/
+theorem orun_base (evs : List OEv) : ∀ s : OSt, (orun s evs).base = run s.base (baseLog evs) := by
+  induction evs with
+  | nil => intro s; rfl
+  | cons e es ih =>
+    intro s
+    cases e with
+    | ev e =>
+      have := ih (ostep s (.ev e))
+      simpa [orun, run, baseLog, ostep] using this
+    | own a =>
+      have := ih (ostep s (.own a))
+      simpa [orun, run, baseLog, ostep] using this
+    | disown a =>
+      have := ih (ostep s (.disown a))
+      simpa [orun, run, baseLog, ostep] using this
+
+/-- a recorded theft is never forgotten -/
+theorem stolen_grows (evs : List OEv) : ∀ s : OSt, s.stolen ≠ [] → (orun s evs).stolen ≠ [] := by
+  induction evs with
+  | nil => intro s h; simpa [orun] using h
+  | cons e es ih =>
+    intro s h
+    simp only [orun, List.foldl_cons]
+    apply ih
+    cases e with
+    | ev e => simp [ostep, h]
+    | own a => simpa [ostep] using h
+    | disown a => simpa [ostep] using h
+
+/-- **stolen_free_reported**: handing back a block while the caller still owns it (ZSTDMT_freeCCtx releasing the pool attached with
+ZSTD_CCtx_refThreadPool, a context releasing a CDict / DDict it only references, ...) is reported whatever happens before and after -/
+theorem stolen_free_reported (s : OSt) (pre rest : List OEv) (a : Nat) (h : a ∈ (orun s pre).owned) :
+    ¬ OwnedIntact (orun s (pre ++ OEv.ev (.free a) :: rest)) := by
+  rw [orun_append]
+  simp only [orun, List.foldl_cons]
+  apply stolen_grows
+  simp [ostep, stolenBy, orun] at h ⊢
+  simp [h]
+
+/-- allocator events none of which hands back an owned block leave the owned objects alone -/
+theorem intact_evs (es : List Ev) : ∀ s : OSt, (∀ a, Ev.free a ∈ es → a ∉ s.owned) →
+    (orun s (es.map OEv.ev)).stolen = s.stolen ∧ (orun s (es.map OEv.ev)).owned = s.owned := by
+  induction es with
+  | nil => intro s _; simp [orun]
+  | cons e es ih =>
+    intro s h
+    simp only [List.map_cons, orun, List.foldl_cons]
+    have hs : (ostep s (.ev e)).stolen = s.stolen ∧ (ostep s (.ev e)).owned = s.owned := by
+      cases e with
+      | alloc b m => simp [ostep, stolenBy]
+      | fail m => simp [ostep, stolenBy]
+      | free b => simp [ostep, stolenBy, h b (List.mem_cons_self ..)]
+    have := ih (ostep s (.ev e)) (by intro a ha; rw [hs.2]; exact h a (List.mem_cons_of_mem _ ha))
+    simp only [orun] at this
+    exact ⟨this.1.trans hs.1, this.2.trans hs.2⟩
+
+theorem run_owns (as : List Nat) : ∀ s : OSt,
+    (orun s (as.map OEv.own)).stolen = s.stolen ∧ (orun s (as.map OEv.own)).owned = as.reverse ++ s.owned := by
+  induction as with
+  | nil => intro s; simp [orun]
+  | cons a as ih =>
+    intro s
+    simp only [List.map_cons, orun, List.foldl_cons]
+    have := ih (ostep s (.own a))
+    simp only [orun] at this
+    exact ⟨this.1, by rw [this.2]; simp [ostep]⟩
+
+theorem run_disowns (as : List Nat) : ∀ s : OSt,
+    (orun s (as.map OEv.disown)).stolen = s.stolen ∧ (∀ x ∈ (orun s (as.map OEv.disown)).owned, x ∈ s.owned ∧ x ∉ as) := by
+  induction as with
+  | nil => intro s; simp [orun]
+  | cons a as ih =>
+    intro s
+    simp only [List.map_cons, orun, List.foldl_cons]
+    have := ih (ostep s (.disown a))
+    simp only [orun] at this
+    refine ⟨this.1, ?_⟩
+    intro x hx
+    have hx2 := this.2 x hx
+    simp [ostep] at hx2
+    simp [hx2]
+
+theorem baseLog_append (a b : List OEv) : baseLog (a ++ b) = baseLog a ++ baseLog b := by
+  simp [baseLog, List.filterMap_append]
+
+theorem baseLog_ev (es : List Ev) : baseLog (es.map OEv.ev) = es := by
+  induction es with
+  | nil => rfl
+  | cons e es ih => simpa [baseLog] using ih
+
+theorem baseLog_own (as : List Nat) : baseLog (as.map OEv.own) = [] := by
+  induction as with
+  | nil => rfl
+  | cons a as ih => simpa [baseLog] using ih
+
+theorem baseLog_disown (as : List Nat) : baseLog (as.map OEv.disown) = [] := by
+  induction as with
+  | nil => rfl
+  | cons a as ih => simpa [baseLog] using ih
+
+/-- **referencing_ctor_unwinds**: a constructor that holds references to caller-owned blocks, acquires its own blocks, meets a failed
+request and releases exactly its own acquisitions (any order) leaves the caller's objects alone, and once the caller has released them
+the allocator ledger is clean.  (ZSTDMT_createCCtx_advanced_internal with a provided pool / referenced CDict, ZSTD_DCtx_refDDict with
+the multi-DDict hash set, ZSTD_CCtx_refPrefix.) -/
+theorem referencing_ctor_unwinds (refs as : List (Nat × Nat)) (bs : List Nat) (failed : Nat)
+    (hnd : ((refs ++ as).map (·.1)).Nodup) (hp : bs.Perm (as.map (·.1))) :
+    Clean (orun {} (refLifecycle refs as failed bs)).base ∧ OwnedIntact (orun {} (refLifecycle refs as failed bs)) := by
+  have hnd2 : (refs.map (·.1) ++ as.map (·.1)).Nodup := by simpa using hnd
+  have hdisj : ∀ b ∈ bs, b ∉ refs.map (·.1) := by
+    intro b hb hr
+    exact (List.nodup_append.mp hnd2).2.2 b hr b ((List.Perm.mem_iff hp).mp hb) rfl
+  constructor
+  · rw [orun_base]
+    have hb : baseLog (refLifecycle refs as failed bs) =
+        (refs ++ as).map (fun p => Ev.alloc p.1 p.2) ++ [Ev.fail failed] ++ (bs ++ refs.map (·.1)).map Ev.free := by
+      simp only [refLifecycle, baseLog_append, baseLog_ev, baseLog_own, baseLog_disown]
+      simp
+    rw [hb]
+    apply ctor_unwinds _ _ _ hnd
+    rw [List.map_append]
+    exact (List.perm_append_comm).trans (List.Perm.append_left _ hp)
+  · unfold OwnedIntact refLifecycle
+    rw [orun_append, orun_append, orun_append, orun_append]
+    -- 1. the caller creates its objects
+    have e1 := intact_evs (refs.map (fun p => Ev.alloc p.1 p.2)) {} (by intro a _; simp)
+    generalize orun {} ((refs.map (fun p => Ev.alloc p.1 p.2)).map OEv.ev) = s1 at e1 ⊢
+    -- 2. and declares them
+    have e2 := run_owns (refs.map (·.1)) s1
+    generalize orun s1 ((refs.map (·.1)).map OEv.own) = s2 at e2 ⊢
+    have ho2 : s2.owned = (refs.map (·.1)).reverse := by rw [e2.2, e1.2]; simp
+    -- 3. the constructor acquires, fails, unwinds
+    have e3 := intact_evs (as.map (fun p => Ev.alloc p.1 p.2) ++ [Ev.fail failed] ++ bs.map Ev.free) s2 (by
+      intro a ha
+      have : a ∈ bs := by simpa using ha
+      rw [ho2]; simpa using hdisj a this)
+    generalize orun s2 ((as.map (fun p => Ev.alloc p.1 p.2) ++ [Ev.fail failed] ++ bs.map Ev.free).map OEv.ev) = s3 at e3 ⊢
+    -- 4. the caller starts releasing
+    have e4 := run_disowns (refs.map (·.1)) s3
+    generalize orun s3 ((refs.map (·.1)).map OEv.disown) = s4 at e4 ⊢
+    have ho4 : s4.owned = [] := by
+      apply List.eq_nil_iff_forall_not_mem.mpr
+      intro x hx
+      have := e4.2 x hx
+      rw [e3.2, ho2] at this
+      exact this.2 (List.mem_reverse.mp this.1)
+    -- 5. and hands its blocks back
+    have e5 := intact_evs ((refs.map (·.1)).map Ev.free) s4 (by intro a _; simp [ho4])
+    rw [e5.1, e4.1, e3.1, e2.1, e1.1]
+
+/-- **mt_ctor_provided_pool_survives**: ZSTDMT_createCCtx_advanced_internal on a pool the caller attached, failing after any number of
+its own acquisitions, with `providedFactory` recorded before the failure check: the pool's blocks are not handed back. -/
+theorem mt_ctor_provided_pool_survives (pool : List Nat) (parts : List (Nat × Nat)) (failed : Nat) (s : OSt)
+    (hown : s.stolen = []) (hd : ∀ p ∈ parts, p.1 ∉ s.owned) :
+    OwnedIntact (orun s (mtCtorOnProvidedPool true pool parts failed)) := by
+  unfold mtCtorOnProvidedPool OwnedIntact
+  have := intact_evs (parts.map (fun p => Ev.alloc p.1 p.2) ++ [Ev.fail failed] ++ (if true then [] else pool.map Ev.free)
+      ++ parts.map (fun p => Ev.free p.1)) s (by
+    intro a ha
+    have : ∃ p ∈ parts, p.1 = a := by simpa using ha
+    obtain ⟨p, hp, rfl⟩ := this
+    exact hd p hp)
+  rw [this.1, hown]
+
+/-- the same constructor with the flag recorded only after the failure check releases the caller's pool: reported -/
+theorem mt_ctor_late_flag_steals :
+    ¬ OwnedIntact (orun {} ([OEv.ev (.alloc 1 100), .ev (.alloc 2 50), .own 1, .own 2] ++ mtCtorOnProvidedPool false [2, 1] [(3, 10), (4, 20)] 30)) := by
+  decide
+
+example : OwnedIntact (orun {} ([OEv.ev (.alloc 1 100), .ev (.alloc 2 50), .own 1, .own 2] ++ mtCtorOnProvidedPool true [2, 1] [(3, 10), (4, 20)] 30
+    ++ [.disown 1, .disown 2, .ev (.free 2), .ev (.free 1)])) := by decide
+example : Clean (orun {} (refLifecycle [(1, 100), (2, 50)] [(3, 10), (4, 20)] 30 [4, 3])).base ∧ OwnedIntact (orun {} (refLifecycle [(1, 100), (2, 50)] [(3, 10), (4, 20)] 30 [4, 3])) := by decide
+
 end ZstdVerif.Props.C13
